@@ -125,7 +125,8 @@ JUDGE = os.path.join(LEAN, ".lake", "build", "bin", "judge")
 def run_harness(exe, lines, extra_args=(), timeout=1800):
     inp = "cfg\n" + "\n".join(lines) + "\n"
     try:
-        p = subprocess.run([exe] + list(extra_args), input=inp, capture_output=True, text=True, timeout=timeout)
+        env = dict(os.environ, ASAN_OPTIONS="detect_leaks=0:abort_on_error=0", UBSAN_OPTIONS="print_stacktrace=1")
+        p = subprocess.run([exe] + list(extra_args), input=inp, capture_output=True, text=True, timeout=timeout, env=env)
     except subprocess.TimeoutExpired:
         return None, "harness timed out after %ds" % timeout
     outl = p.stdout.split("\n")
